@@ -39,6 +39,9 @@ type Profile struct {
 	CronJCs        int  // number of JobConfigs with a cron schedule (needs Options.Cron)
 	EditStartAfter int  // percent of startAfter Jobs whose startAfter is postponed by the user later
 	FutureKill     int  // percent of kills with a kill timestamp in the future
+	CronStopAfter  time.Duration // the user disables every cron schedule at this time (0: never), making the workload finite
+	HostileNames   bool          // JobConfig names containing dots and digits (the cron work item key is <ns>/<name>.<unix>)
+	DupRequests    int           // number of injected duplicate / out-of-order schedule requests
 }
 
 // Workload is a generated case.
@@ -93,6 +96,9 @@ func Gen(r *rand.Rand, p Profile) *Workload {
 		pol := p.Policies[r.Intn(len(p.Policies))]
 		ns := p.Namespaces[r.Intn(len(p.Namespaces))]
 		name := fmt.Sprintf("jc%d", i)
+		if p.HostileNames {
+			name = []string{"jc.1", "a.b.2208988800", "x-1.2.3", "n7", "cfg.0"}[r.Intn(5)] + fmt.Sprintf("%d", i)
+		}
 		if len(p.Namespaces) > 1 && r.Intn(2) == 0 {
 			name = "shared" // same name in several namespaces
 			dup := false
@@ -116,6 +122,18 @@ func Gen(r *rand.Rand, p Profile) *Workload {
 		if i < p.CronJCs {
 			jc.Spec.Schedule = &execution.ScheduleSpec{Cron: &execution.CronSchedule{Expression: []string{"0/10 * * * * * *", "0/15 * * * * * *", "0/20 * * * * * *", "5/30 * * * * * *"}[r.Intn(4)]}}
 		}
+		if i < p.CronJCs && p.CronStopAfter > 0 {
+			ns2, name2 := ns, name
+			wl.Ops = append(wl.Ops, UserOp{At: p.CronStopAfter, Name: "disable schedule of " + ns + "/" + name, Do: func(w *World) {
+				jcc := w.User.Furiko().ExecutionV1alpha1().JobConfigs(ns2)
+				if cur, err := jcc.Get(context.Background(), name2, metav1.GetOptions{}); err == nil && cur.Spec.Schedule != nil {
+					cur.Spec.Schedule.Disabled = true
+					if _, err := jcc.Update(context.Background(), cur, metav1.UpdateOptions{}); err != nil {
+						w.Mon.Notes = append(w.Mon.Notes, "disable refused: "+err.Error())
+					}
+				}
+			}})
+		}
 		jcs = append(jcs, jcInfo{ns, name, pol})
 		mc := int64(1)
 		if jc.Spec.Concurrency.MaxConcurrency != nil {
@@ -127,6 +145,22 @@ func Gen(r *rand.Rand, p Profile) *Workload {
 			if _, err := w.User.Furiko().ExecutionV1alpha1().JobConfigs(obj.Namespace).Create(context.Background(), obj, metav1.CreateOptions{}); err != nil {
 				w.Mon.Notes = append(w.Mon.Notes, "jobconfig create refused: "+err.Error())
 			}
+		}})
+	}
+	for d := 0; d < p.DupRequests; d++ {
+		at := time.Duration(2+r.Intn(p.Spread+30)) * time.Second
+		pick, back := r.Intn(1<<30), r.Intn(4)
+		wl.Ops = append(wl.Ops, UserOp{At: at, Name: "re-deliver a schedule request", Do: func(w *World) {
+			// a duplicate or out-of-order re-delivery of a schedule request that was made before
+			q, reqs := w.CronQueue(), w.Mon.CronRequests()
+			if q == nil || len(reqs) == 0 {
+				return
+			}
+			i := len(reqs) - 1 - back
+			if back == 3 || i < 0 {
+				i = pick % len(reqs)
+			}
+			q.Add(reqs[i].Key)
 		}})
 	}
 	nj := p.MinJobs
